@@ -37,6 +37,8 @@ type Opts struct {
 	Wipe bool
 	// Reposition[a], when set, is given to SetBinlogPosition before attempt a (a > 0)
 	Reposition map[int]ref.Position
+	// HungAfter: seconds after which an attempt that has not returned counts as hung (default 60)
+	HungAfter int
 	// Nest is called inside every handler call (with the index of the delivery)
 	Nest func(k int)
 }
@@ -285,9 +287,13 @@ func (r *Runner) Attempt() bool {
 				e1 = st.Error()
 			})
 		}()
+		limit := 60
+		if o.HungAfter > 0 {
+			limit = o.HungAfter
+		}
 		select {
 		case <-done:
-		case <-time.After(60 * time.Second):
+		case <-time.After(time.Duration(limit) * time.Second):
 			out.Hung = true
 			return false
 		}
